@@ -177,7 +177,8 @@ fn kinds_of(spec: &str) -> Vec<usize> {
 /// A real run; see the module documentation.  `spec` = `opt/pre/inp/post`, each a set of kind
 /// letters (b bytes, c chars, y cycles, i items) or `-`: constant counters given through the
 /// options, constant counters set with `Bencher::counter` before `with_inputs`, per-input
-/// counters (`input_counter`), constant counters set with `Bencher::counter` after `input_counter`.
+/// counters (`input_counter`), constant counters set with `Bencher::counter` after `input_counter`;
+/// an optional fifth part: kinds attached with `count_inputs_as::<K>()` instead of `input_counter`.
 fn run(line: &str) -> String {
     use divan::counter::{BytesCount, CharsCount, CyclesCount, ItemsCount};
     use std::sync::atomic::{AtomicU64, Ordering};
@@ -187,8 +188,13 @@ fn run(line: &str) -> String {
     let sample_size: Option<u32> = if t[1] == "t" { None } else { Some(t[1].parse().unwrap()) };
     let threads: usize = t[2].parse().unwrap();
     let spec: Vec<&str> = t[3].split('/').collect();
-    assert!(spec.len() == 4);
+    assert!(spec.len() == 4 || spec.len() == 5);
     let (opt, pre, inp, post) = (kinds_of(spec[0]), kinds_of(spec[1]), kinds_of(spec[2]), kinds_of(spec[3]));
+    // optional 5th part: kinds attached with `count_inputs_as::<K>()` (the input is then the plain value `n`)
+    let cia = if spec.len() == 5 { kinds_of(spec[4]) } else { Vec::new() };
+    if !cia.is_empty() {
+        assert!(inp.is_empty(), "count_inputs_as: no input_counter closures");
+    }
     let mode: char = t[4].chars().next().unwrap();
     let seed: u64 = t[5].parse().unwrap();
     let konst = |base: u32, k: usize| -> u32 { base + 7 * k as u32 + (seed % 5) as u32 };
@@ -267,6 +273,27 @@ fn run(line: &str) -> String {
                 _ => b.counter(ItemsCount::new(konst(2000, k))),
             };
         }
+        if !cia.is_empty() {
+            assert!("0a1ol".contains(mode), "count_inputs_as: the input is a plain number");
+            let mut b = b.with_inputs(|| gen().n);
+            for &k in &cia {
+                b = match k {
+                    0 => b.count_inputs_as::<BytesCount>(),
+                    1 => b.count_inputs_as::<CharsCount>(),
+                    2 => b.count_inputs_as::<CyclesCount>(),
+                    _ => b.count_inputs_as::<ItemsCount>(),
+                };
+            }
+            for &k in &post {
+                b = match k {
+                    0 => b.counter(BytesCount::new(konst(3000, k))),
+                    1 => b.counter(CharsCount::new(konst(3000, k))),
+                    2 => b.counter(CyclesCount::new(konst(3000, k))),
+                    _ => b.counter(ItemsCount::new(konst(3000, k))),
+                };
+            }
+            return b.bench_values(move |n: usize| work(In { n, buf: None }));
+        }
         let mut b = b.with_inputs(gen);
         for &k in &inp {
             b = match k {
@@ -309,12 +336,14 @@ fn run(line: &str) -> String {
     // samples joined by `;`, a sample = comma list of counts, `v^k` = k inputs of count v.
     let n = dump.durations.len() as u64;
     let s = dump.sample_size as u64;
+    // count of an input value under kind k: `count_inputs_as` counts the value itself
+    let mult = |k: usize| -> u64 { if cia.contains(&k) { 1 } else { MULT[k] } };
     let exp: Vec<String> = (0..4)
         .map(|k| {
             if post.contains(&k) {
                 // a constant set after the input counter replaces it
                 format!("={}", konst(3000, k))
-            } else if !inp.contains(&k) {
+            } else if !inp.contains(&k) && !cia.contains(&k) {
                 if pre.contains(&k) {
                     format!("={}", konst(2000, k))
                 } else if opt.contains(&k) {
@@ -328,10 +357,10 @@ fn run(line: &str) -> String {
                 (0..n)
                     .map(|j| {
                         if uniform {
-                            format!("{}^{}", input_value(seed) as u64 * MULT[k], s)
+                            format!("{}^{}", input_value(seed) as u64 * mult(k), s)
                         } else {
                             (0..s)
-                                .map(|t| (input_value(seed + j * s + t) as u64 * MULT[k]).to_string())
+                                .map(|t| (input_value(seed + j * s + t) as u64 * mult(k)).to_string())
                                 .collect::<Vec<_>>()
                                 .join(",")
                         }
@@ -468,10 +497,28 @@ fn e2e_ticks(seed: u64, r: u64, t: u64, o: u64) -> u64 {
     base + 1_000 * (e2e_mix(seed, r, t, o) % 7)
 }
 
-/// `<sample_count> <sample_size> <t1,t2,..> <counter 0|1> <seed>`: runs the real benchmark binary
+/// Same as `alloc_op` in src/e2e.rs.
+fn e2e_alloc_op(mode: char, seed: u64, r: u64, t: u64, o: u64) -> Option<u64> {
+    let class = e2e_mix(seed, r, t, o) % 7;
+    let yes = match mode {
+        'a' => true,
+        'i' => (2..=4).contains(&class),
+        'x' => class == 0 || class == 6,
+        'r' => e2e_mix(seed ^ 0xA110C, r, t, o) % 3 == 0,
+        _ => false,
+    };
+    if yes {
+        Some((e2e_mix(seed ^ 0x0905, r, t, o) >> 8) % 3)
+    } else {
+        None
+    }
+}
+
+/// `<sample_count> <sample_size> <t1,t2,..> <counter 0|1>[<alloc mode>] <seed>`: runs the real benchmark binary
 /// `hx-stats-e2e` through `Divan::main` (one `BenchContext` per thread count) and prints, per
 /// thread count, the samples that run recorded (known from the configuration) and the row the
-/// table shows: `R <T> IN <s> <durations> ROW fastest|slowest|median|mean|samples|iters ;; ..`.
+/// table shows: `R <T> IN <s> <durations> <alloc infos> ROW fastest|slowest|median|mean|samples|iters
+/// BLOCKS <labels of the allocation blocks printed under the row> ;; ..`.
 fn e2e(line: &str) -> String {
     let t = hxlib::toks(line);
     assert!(t.len() == 5, "e2e: 5 tokens");
@@ -482,24 +529,28 @@ fn e2e(line: &str) -> String {
     threads.sort();
     threads.dedup();
     let seed: u64 = t[4].parse().unwrap();
+    let amode: char = t[3].chars().nth(1).unwrap_or('0');
     let exe = std::env::current_exe().expect("exe").with_file_name("hx-stats-e2e");
     let out = std::process::Command::new(exe)
         .args(["--bench", "--sample-count", t[0], "--sample-size", t[1], "--threads", t[2]])
         .args(["--timer", "tsc", "--color", "never"])
         .env("HX_SEED", t[4])
-        .env("HX_COUNTER", t[3])
+        .env("HX_COUNTER", &t[3][..1])
+        .env("HX_ALLOC", amode.to_string())
         .output()
         .expect("spawn hx-stats-e2e");
     if !out.status.success() {
         return format!("crash status={:?}", out.status.code());
     }
     let stdout = String::from_utf8_lossy(&out.stdout);
-    // rows: label (`job` or `t=N`) and the six cells
-    let mut rows: Vec<(String, Vec<String>)> = Vec::new();
+    // rows: label (`job` or `t=N`), the six cells, and the labels of the allocation blocks printed below the row
+    let mut rows: Vec<(String, Vec<String>, Vec<&str>)> = Vec::new();
     for l in stdout.lines() {
         if !l.contains('│') {
             continue;
         }
+        // drop the tree glyphs in front (a `│` there is part of the tree, not a column separator)
+        let l = l.trim_start_matches(|c: char| c.is_whitespace() || "╰├─│".contains(c));
         let cells: Vec<&str> = l.split('│').collect();
         let first: Vec<&str> = cells[0]
             .split(|c: char| c.is_whitespace() || "╰├─│".contains(c))
@@ -508,37 +559,98 @@ fn e2e(line: &str) -> String {
         if first.is_empty() {
             continue;
         }
+        if first[0].ends_with(':') || (first.len() > 1 && first[1].ends_with(':')) {
+            let label = match (first[0], first.get(1).copied()) {
+                ("max", Some("alloc:")) => "max_alloc",
+                ("grow:", _) => "grow",
+                ("shrink:", _) => "shrink",
+                ("alloc:", _) => "alloc",
+                ("dealloc:", _) => "dealloc",
+                _ => "other",
+            };
+            if let Some(last) = rows.last_mut() {
+                last.2.push(label);
+            }
+            continue;
+        }
+        if !(first[0] == "job" || first[0].starts_with("t=")) {
+            continue; // value lines of a block, the header
+        }
         let label = first[0].to_string();
         let fastest = first[1..].join("_");
         let mut v = vec![fastest];
         v.extend(cells[1..].iter().map(|c| c.trim().replace(' ', "_")));
-        rows.push((label, v));
+        rows.push((label, v, Vec::new()));
     }
     let mut parts = Vec::new();
     for (r, &tc) in threads.iter().enumerate() {
         let rounds = if n == 0 { 0 } else { (n + tc - 1) / tc };
         let mut durs = Vec::new();
+        let mut allocs = Vec::new();
         for rho in 0..rounds {
             for tau in 0..tc {
                 let mut d = 1u64;
+                // rows grow, shrink, alloc, dealloc x (count, size); peaks of the sample
+                let mut rw = [0u64; 8];
+                let (mut max_count, mut max_size) = (0u64, 0u64);
                 for o in rho * s..(rho + 1) * s {
                     d += e2e_ticks(seed, r as u64, tau, o);
+                    if let Some(op) = e2e_alloc_op(amode, seed, r as u64, tau, o) {
+                        max_count = 1;
+                        rw[4] += 1;
+                        rw[5] += 64;
+                        rw[6] += 1;
+                        match op {
+                            1 => {
+                                rw[0] += 1;
+                                rw[1] += 64;
+                                rw[7] += 128;
+                                max_size = max_size.max(128);
+                            }
+                            2 => {
+                                rw[2] += 1;
+                                rw[3] += 32;
+                                rw[7] += 32;
+                                max_size = max_size.max(64);
+                            }
+                            _ => {
+                                rw[7] += 64;
+                                max_size = max_size.max(64);
+                            }
+                        }
+                    }
+                }
+                if rw.iter().any(|x| *x != 0) {
+                    allocs.push(format!(
+                        "{}:{}:{}:{}",
+                        durs.len(),
+                        max_count,
+                        max_size,
+                        rw.iter().map(|x| x.to_string()).collect::<Vec<_>>().join(":")
+                    ));
                 }
                 durs.push(d.to_string());
             }
         }
         let label = if threads.len() > 1 { format!("t={tc}") } else { "job".to_string() };
-        let row = rows
-            .iter()
-            .find(|(l, c)| *l == label && c.len() == 6 && !c[0].is_empty())
-            .map(|(_, c)| c.join("|"))
+        let found = rows.iter().find(|(l, c, _)| *l == label && c.len() == 6 && !c[0].is_empty());
+        let row = found.map(|(_, c, _)| c.join("|")).unwrap_or_else(|| "missing".to_string());
+        let blocks = found
+            .map(|(_, _, b)| {
+                let order = ["max_alloc", "grow", "shrink", "alloc", "dealloc", "other"];
+                let mut b: Vec<&str> = b.clone();
+                b.sort_by_key(|x| order.iter().position(|y| y == x));
+                if b.is_empty() { "-".to_string() } else { b.join(",") }
+            })
             .unwrap_or_else(|| "missing".to_string());
         parts.push(format!(
-            "R {} IN {} {} ROW {}",
+            "R {} IN {} {} {} ROW {} BLOCKS {}",
             tc,
             s,
             if durs.is_empty() { "-".to_string() } else { durs.join(",") },
-            row
+            if allocs.is_empty() { "-".to_string() } else { allocs.join(";") },
+            row,
+            blocks
         ));
     }
     parts.join(" ;; ")
